@@ -206,6 +206,33 @@ theorem invalid_options_rejected (lm : LinModel (Ext K)) (o : Options (Ext K)) (
   · simp [solveMilpWith, hout, hw]
   · simp [solveMilpWithFixed, wrapMilpFixed, hout, hw]
 
+/-! ### every way of passing the options: the builder's `Microlp` solver object -/
+
+/-- `Microlp::new().with_mip_gap(g).with_time_limit(t)` forwards exactly the values it was given (no clamping, no
+defaulting), in either order of the builder calls. -/
+theorem builder_forwards_options (g : Ext K) (t : Nat) :
+    ((Microlp.new.withMipGap g).withTimeLimit t).options = { mipGap := some g, timeLimitNs := some t } ∧
+    ((Microlp.new.withTimeLimit t).withMipGap g).options = { mipGap := some g, timeLimitNs := some t } ∧
+    (Microlp.new : Microlp (Ext K)).options = { mipGap := none, timeLimitNs := none } := by
+  simp [Microlp.new, Microlp.withMipGap, Microlp.withTimeLimit, Microlp.options]
+
+/-- solving through the builder object IS solving with the options struct it carries. -/
+theorem builder_solve_eq (gap : Option (Ext K)) (limit : Option Nat) (lm : LinModel (Ext K)) (search : Search K) :
+    (Microlp.build gap limit).solve lm search = solveMilpWith lm { mipGap := gap, timeLimitNs := limit } search ∧
+    (Microlp.build gap limit).solveFixed lm search = solveMilpWithFixed lm { mipGap := gap, timeLimitNs := limit } search := by
+  cases gap <;> cases limit <;>
+    simp [Microlp.build, Microlp.solve, Microlp.solveFixed, Microlp.new, Microlp.withMipGap, Microlp.withTimeLimit,
+      Microlp.options]
+
+/-- invalid option values passed through the builder methods are rejected exactly like through `MilpOptions`. -/
+theorem invalid_options_rejected_builder (lm : LinModel (Ext K)) (g : Ext K) (limit : Option Nat) (search : Search K)
+    (hacc : accepted lm = true) (hinv : gapValid g = false) :
+    (Microlp.build (some g) limit).solve lm search = .err "Other" ∧
+    (Microlp.build (some g) limit).solveFixed lm search = .err "Other" := by
+  have h := builder_solve_eq (some g) limit lm search
+  rw [h.1, h.2]
+  exact invalid_options_rejected lm _ search hacc (by simp [optionsValid, hinv])
+
 /-! ### non-vacuity (for every ordered field `K`) -/
 
 /-- `label_sound_fixed` / `no_solution_without_incumbent_fixed`: a finished search on the tiny model is returned. -/
